@@ -6,8 +6,11 @@
          before it was ever defined, and the flag invariant is re-established on exit.
  b  RF5  configuration setters of the objective-function hierarchy invalidate already_set_up.
 """
+import re
+
 from engine import rf5
 from engine.absint import Explorer
+from engine.algebra import LocalDefs
 from engine.cfg import CFG
 from engine.extract import Request
 from engine.tree import key
@@ -147,8 +150,27 @@ def rule_c_end_planes(ctx, fn):
             ctx.ob("C05.c-end-planes-zeroed-uniformly", fn.qn, "output#%d" % i, False, fn.where(), "get_viewgrams never calls zero_end_sinograms: %s is returned without end-plane zeroing" % p["n"])
         return
     cand = None
+    ldefs = LocalDefs(fn)
+    from engine.cfg import atoms as _atoms
+
+    def true_keys(c):
+        out = set()
+        for k, tv, _r in cfg.facts_at(c):
+            if tv is not True:
+                continue
+            out.add(k)
+            # a bool local defined once as a conjunction: its conjuncts hold as well
+            m_ = re.fullmatch(r"v(\d+)", k)
+            if m_:
+                init = ldefs.single_def(int(m_.group(1)))
+                if init is not None:
+                    for at, t2 in _atoms(init, True):
+                        if t2 is True:
+                            out.add(key(at))
+        return out
+
     for c in zcalls:
-        here = {k for k, tv, _r in cfg.facts_at(c) if tv is True and k in bools}
+        here = {k for k in true_keys(c) if k in bools}
         cand = here if cand is None else (cand & here)
     if not cand or len(cand) != 1:
         ctx.unrec(fn.qn, "cannot identify the end-plane flag: bool parameters true at every zero_end_sinograms call = %s" % sorted(cand or []))
@@ -162,7 +184,7 @@ def rule_c_end_planes(ctx, fn):
     skey = segkeys.pop()
     ghosts = ["ghost:zeroed:%d" % i for i, p in enumerate(outs)]
     roots_ = {"v%d" % p["d"]: i for i, p in enumerate(outs)}
-    ex = Explorer(cfg, [zkey, skey] + ghosts)
+    ex = Explorer(cfg, [zkey, skey] + ghosts, defs=ldefs)
     from engine.tree import written_lvalues, root_of_lvalue
 
     def on_el(n, s, _ex):
